@@ -92,7 +92,7 @@ def corr_idman(ck: Ck) -> None:
     for lo in range(0, len(cases), 500):
         part = cases[lo:lo + 500]
         lit = coq_list(f'({coq_list(coq_op(o) for o in ops)}, {coq_Z_list(exp)})' for ops, exp in part)
-        vals = ck.coq_eval(IMPORTS, [f'bad_idx (fun c : list op * list Z => zl_eqb (run init (fst c)) (snd c)) 0 {lit}'],
+        vals = ck.coq_eval(IMPORTS, [f'bad_idx (fun c : list op * list Z => zl_eqb (run idman_lower_guard init (fst c)) (snd c)) 0 {lit}'],
                            name='idman', preamble=PRE)
         if vals is None:
             ck.obligation('correspondence:idman', False, 'model could not be evaluated')
@@ -213,6 +213,10 @@ def run_history(hist: list[tuple], record_release=None):
     from srctools.vmf import VMF, Entity, Solid, Side, EntityGroup, VisGroup
     from srctools.math import Vec
     vmf = VMF()
+    vmf2 = VMF()        # destination of cross-map copies
+    for _ in range(3):  # pre-populate so that ID ranges of the two maps overlap
+        vmf2.add_brush(vmf2.make_prism(Vec(0, 0, 0), Vec(8, 8, 8)).solid)
+        vmf2.create_ent('info_target')
     objs: list = []     # [kind, obj or None, in_map]
     steps = []
     for ev in hist:
@@ -255,6 +259,17 @@ def run_history(hist: list[tuple], record_release=None):
                     o = src.copy()
                     vmf.add_brush(o)
                 objs.append([kind, o, True])
+            elif op == 'xcopy':     # copy into the other map
+                k = ev[1] % len(objs) if objs else None
+                if k is None or objs[k][1] is None or objs[k][0] in ('group', 'vis', 'node'):
+                    continue
+                kind, src, _ = objs[k]
+                o = src.copy(vmf_file=vmf2)
+                if kind in ('ent', 'brushent'):
+                    vmf2.add_ent(o)
+                else:
+                    vmf2.add_brush(o)
+                del o
             elif op == 'remove':
                 k = ev[1] % len(objs) if objs else None
                 if k is None or objs[k][1] is None or not objs[k][2] or objs[k][0] in ('group', 'vis'):
@@ -289,7 +304,9 @@ def run_history(hist: list[tuple], record_release=None):
         except Exception as e:   # an exception in the public API during a legal history is itself reported
             steps.append({'error': f'{type(e).__name__}: {e}'})
             break
-        steps.append(scan_map(vmf))
+        sc = scan_map(vmf)
+        sc.update({'map2:' + k: v for k, v in scan_map(vmf2).items()})
+        steps.append(sc)
     return steps, objs, vmf
 
 
@@ -299,8 +316,10 @@ def gen_history(rng: random.Random, n: int, kinds) -> list[tuple]:
         r = rng.random()
         if r < 0.40 or not h:
             h.append(('create', rng.choice(kinds), rng.choice([-1, -1, 0, -4, 1, 2, 2, 3, 5])))
-        elif r < 0.50:
+        elif r < 0.46:
             h.append(('copy', rng.randint(0, 9)))
+        elif r < 0.52:
+            h.append(('xcopy', rng.randint(0, 9)))
         elif r < 0.70:
             h.append(('remove', rng.randint(0, 9)))
         elif r < 0.80:
@@ -321,6 +340,7 @@ CORPUS_HIST = [
     [('create', 'node', -5), ('create', 'node', -1)],
     [('create', 'ent', 2), ('create', 'ent', 2), ('copy', 0), ('remove', 1), ('readd', 1), ('create', 'ent', 2)],
     [('create', 'brushent', 4), ('copy', 0), ('remove', 0), ('gc', 0), ('create', 'brushent', 1), ('create', 'solid', 1)],
+    [('create', 'brushent', -1), ('xcopy', 0), ('create', 'solid', -1), ('xcopy', 1), ('xcopy', 0)],
 ]
 
 
@@ -359,7 +379,8 @@ def first_problem(hist):
         if 'error' in s:
             return ('api', 'exception', s['error'], i)
         for kind, what, vals in dup_report(s):
-            k = 'fixup' if kind.startswith('fixup') else kind
+            k = kind.replace('map2:', '')
+            k = ('xmap-' if kind.startswith('map2:') else '') + ('fixup' if k.startswith('fixup') else k)
             return (k, what, vals, i)
     return None
 
@@ -499,6 +520,8 @@ def run(ck: Ck) -> None:
             'every_id_store_is_a_get_id_result': 'all_id_stores_from_get_id',
             'fixup_constructor_tests_positivity': 'fixup_init_requires_positive',
             'fixup_set_searches_from_1': 'Z.eqb fixup_set_start 1',
+            'idman_hint_lowered_only_by_positive_ids': 'idman_lower_guard',
+            'each_class_uses_the_manager_of_its_kind': 'class_kind_consistent',
             'no_unclassified_release_site': 'forallb (fun x : kind * site * String.string => match snd (fst x) with SOther => false | _ => true end) release_sites',
         })
         corr_idman(ck)
